@@ -146,6 +146,10 @@ func defaultGenerateBasename(ctx context.Context, cops ChangeOps) (string, error
 	}
 	basename := fmt.Sprintf("%s.%s", release, endorsementFileExt)
 	path := releasePath(ctx, basename)
+	if ec.DryRun {
+		// There is no workspace to consult in a dry run.
+		return basename, nil
+	}
 	exists, err := fileExists(ctx, cops, path)
 	if err != nil {
 		return "", err
@@ -211,9 +215,17 @@ func addEndorsementEntry(ctx context.Context,
 }
 
 func writeEndorsement(ctx context.Context, paths []string, endorsement *epb.VMLaunchEndorsement, cops ChangeOps) error {
+	ec, err := FromContext(ctx)
+	if err != nil {
+		return err
+	}
 	endorsementBytes, err := proto.Marshal(endorsement)
 	if err != nil {
 		return fmt.Errorf("failed to marshal endorsement binary proto: %w", err)
+	}
+	if ec.DryRun {
+		output.Infof(ctx, "dry run: would write endorsement to %q", paths)
+		return nil
 	}
 	var files []*File
 	for _, path := range paths {
@@ -315,6 +327,10 @@ func snapshotEndorsement(ctx context.Context, cops ChangeOps, endorsement *epb.V
 	}
 	if err := writeEndorsement(ctx, endorsementPaths, endorsement, cops); err != nil {
 		return err
+	}
+	if ec.DryRun {
+		output.Infof(ctx, "dry run: would write %d snapshot files under %q", len(files), fwPath)
+		return nil
 	}
 	if err := cops.WriteOrCreateFiles(ctx, files...); err != nil {
 		return err
